@@ -20,6 +20,7 @@ static uint8_t *stk_map, *stk_top;      /* stk_top: first byte above the usable 
 static const uint64_t SENT[6] = { 0x5e17b0b0b0b0b001ULL, 0x5e17b0b0b0b0b002ULL, 0x5e17b0b0b0b0b003ULL, 0x5e17b0b0b0b0b004ULL, 0x5e17b0b0b0b0b005ULL, 0x5e17b0b0b0b0b006ULL };
 #define CANARY 0xCA11AB1ECA11AB1EULL
 static uint64_t ncalls, entry_rsp;
+unsigned tramp_stack_shift;
 static int cur_nstack;
 
 const tramp_hidden_t tramp_hidden_A = { 0, { 0 }, 0, 0, 0x00, 0 };
@@ -68,11 +69,13 @@ uint64_t tramp_invoke(void *fn, int nargs, const uint64_t *args, unsigned is32, 
         cur_nstack = nstack;
         uint64_t *top = (uint64_t *) stk_top;
         for (int i = 0; i < NCANARY; i++) top[i] = CANARY;
-        /* stack args end right below the canaries; rsp at the call must be 16-byte aligned */
+        /* stack args end below the canaries; rsp at the call must be 16-byte aligned. tramp_stack_shift (0..7) moves the whole
+         * frame down by 16-byte steps so that every residue of rsp modulo 64/128 is exercised; the gap is canary-filled */
         uint64_t *sa = top - nstack;
-        if (((uintptr_t) sa) & 15) sa--;        /* one padding word between last stack arg and canaries is then also checked */
+        if (((uintptr_t) sa) & 15) sa--;
+        sa -= 2 * (tramp_stack_shift & 7);
         for (int i = 0; i < nstack; i++) sa[i] = args[6 + i] | ((is32 >> (6 + i)) & 1 ? h->upper32 : 0);
-        if (sa + nstack != top) sa[nstack] = CANARY;
+        for (uint64_t *q = sa + nstack; q < top; q++) *q = CANARY;
         tramp_new_rsp = (uint64_t) sa;
         entry_rsp = tramp_new_rsp;
         tramp_dead_lo = (uint64_t) (stk_map + 4096);
@@ -108,7 +111,7 @@ int tramp_abi_ok(char *why, size_t n)
         uint64_t *top = (uint64_t *) stk_top;
         for (int i = 0; i < NCANARY; i++) if (top[i] != CANARY && o < n) { bad = 1; o += (size_t) snprintf(why + o, n - o, "write-above-frame@+%d ", 8 * (i + cur_nstack)); break; }
         uint64_t *sa = (uint64_t *) entry_rsp;
-        if (sa + cur_nstack != top && sa[cur_nstack] != CANARY && o < n) { bad = 1; o += (size_t) snprintf(why + o, n - o, "write-above-frame(pad) "); }
+        for (uint64_t *q = sa + cur_nstack; q < top; q++) if (*q != CANARY && o < n) { bad = 1; o += (size_t) snprintf(why + o, n - o, "write-above-frame(gap) "); break; }
         return !bad;
 }
 
